@@ -344,6 +344,7 @@ def validate_all(work, tracefiles, invariants, chunks=4, module="TraceProps.tla"
         sizes[i] += len(data)
     for h in handles:
         h.close()
+    corrupt_for_selftest(outs, module)
     total = sum(count_traces(o) for o in outs)
     works = []
     # every chunk needs its own scratch spec dir entry names; tlc() is safe to call concurrently
@@ -364,6 +365,30 @@ def validate_all(work, tracefiles, invariants, chunks=4, module="TraceProps.tla"
         if r["violated"]:
             return total, r
     return total, None
+
+
+def corrupt_for_selftest(files, module):
+    """bin/selftest.py only: KB_CORRUPT='<trace module>::<regex>=><replacement>' rewrites the first matching line of the
+    recorded traces before validation, to show that the trace specification rejects a falsified record.
+    The registered commands never set it."""
+    spec = os.environ.get("KB_CORRUPT")
+    if not spec:
+        return
+    mod, rule = spec.split("::", 1)
+    if mod != module:
+        return
+    pat, repl = rule.split("=>", 1)
+    rx = re.compile(pat)
+    for f in files:
+        lines = open(f).read().split("\n")
+        for i, l in enumerate(lines):
+            if rx.search(l):
+                lines[i] = rx.sub(repl, l, count=1)
+                open(f, "w").write("\n".join(lines))
+                log("selftest: falsified line %d of %s" % (i + 1, os.path.basename(f)))
+                os.environ["KB_CORRUPT"] = ""
+                return
+    log("selftest: no line matches %s" % pat)
 
 
 def report_violation(prop, seed, v):
